@@ -10,6 +10,8 @@ import Mathlib.Algebra.BigOperators.Intervals
 import Mathlib.Analysis.Real.Sqrt
 import Mathlib.Tactic.Ring
 import Mathlib.Tactic.FieldSimp
+import Mathlib.Algebra.BigOperators.Field
+import Mathlib.Tactic.Linarith
 
 namespace Nitime.Num
 open Finset
